@@ -252,7 +252,7 @@ Proof.
     destruct (link_lookup links h2 n2 m2 t2) as [l|] eqn:El.
     + right; left. exists l. split; [|split; reflexivity]. unfold link_lookup in El. apply find_some in El as [Hin _]. exact Hin.
     + right; right. exists h1, n1, m1, t1, h2, n2, m2, t2.
-      split; [exact P1|]. split; [exact P2|]. split; [exact Hcv|]. split; [exact El|]. split; [exact El|]. split; reflexivity.
+      split; [exact P1|]. split; [exact P2|]. split; [exact Hcv|]. split; [rewrite (link_lookup_cv links _ _ _ _ _ _ _ _ Hcv); exact El|]. split; [exact El|]. split; reflexivity.
   - left. split; apply b_manifest_path_invalid; [rewrite E1|rewrite E2]; assumption.
 Qed.
 
@@ -308,14 +308,14 @@ Proof.
     + apply (equal_fold_au_ascii s_default_namespace n (part_ok_ascii _ _ Hn)) in En.
       cbn [app]. unfold m_parse. rewrite m_parse_bare_mt by assumption.
       unfold m_merge, m_default. cbn [mH mN mM mT or_str]. rewrite (or_str_nonempty t) by (eapply part_ok_nonempty; eassumption).
-      split; [apply m_is_fq_parts; repeat split; try assumption; [apply default_host_ok|apply default_namespace_ok]|].
+      split; [apply m_is_fq_parts; split; [apply default_host_ok|split; [apply default_namespace_ok|split; assumption]]|].
       split; [|split; reflexivity]. repeat split; cbn [mH mN mM mT]; try assumption; apply cv_refl.
     + replace ((n ++ [c_slash]) ++ m ++ [c_colon] ++ t) with ((n ++ c_slash :: m) ++ c_colon :: t)
         by (repeat rewrite <- app_assoc; reflexivity).
       unfold m_parse. rewrite m_parse_bare_nmt by assumption.
       unfold m_merge, m_default. cbn [mH mN mM mT or_str].
       rewrite (or_str_nonempty t), (or_str_nonempty n) by (eapply part_ok_nonempty; eassumption).
-      split; [apply m_is_fq_parts; repeat split; try assumption; apply default_host_ok|].
+      split; [apply m_is_fq_parts; split; [apply default_host_ok|split; [assumption|split; assumption]]|].
       split; [|split; reflexivity]. repeat split; cbn [mH mN mM mT]; try assumption; apply cv_refl.
   - replace ((h ++ [c_slash] ++ n ++ [c_slash]) ++ m ++ [c_colon] ++ t) with (full_string h n m t)
       by (unfold full_string; repeat rewrite <- app_assoc; cbn [app]; repeat rewrite <- app_assoc; reflexivity).
